@@ -692,10 +692,7 @@ class Interp:
                         continue
                     if not after:
                         continue
-                    txt = None
-                    if isinstance(st2, (ast.If, ast.Expr)):
-                        txt = ast.unparse(st2)
-                    if txt and any(f"{name}.{m}(" in txt for m in ("update", "append", "extend", "add")):
+                    if isinstance(st2, (ast.If, ast.Expr, ast.Assign, ast.AugAssign)) and _mutates(st2, name):
                         try:
                             self.exec(st2, Frame(RepoFunc(mod, "<module>", None), {name: v}))
                         except (PyRaise, Unsupported):
@@ -1532,6 +1529,21 @@ class Interp:
 
     def s_Continue(self, st, fr):
         raise _Continue()
+
+
+def _mutates(st, name):
+    """does a module-level statement (or the body of a module-level if) change the container bound to `name` in place:
+    name.update(...) / append / extend / add / setdefault / insert, name[k] = v, name += ..."""
+    for n in ast.walk(st):
+        if isinstance(n, ast.Call) and isinstance(n.func, ast.Attribute) and isinstance(n.func.value, ast.Name) \
+                and n.func.value.id == name and n.func.attr in ("update", "append", "extend", "add", "setdefault", "insert"):
+            return True
+        if isinstance(n, ast.Assign) and any(isinstance(t, ast.Subscript) and isinstance(t.value, ast.Name)
+                                             and t.value.id == name for t in n.targets):
+            return True
+        if isinstance(n, ast.AugAssign) and isinstance(n.target, ast.Name) and n.target.id == name:
+            return True
+    return False
 
 
 class _Missing:
